@@ -10,6 +10,7 @@ var commands = map[string]func([]string){
 	"c01rand": cmdC01Rand,
 	"c03gen":  cmdC03Gen,
 	"c02":     cmdC02,
+	"c02gen":  cmdC02Gen,
 	"serve":   cmdServe,
 	"life":    cmdLife,
 	"c07":     cmdC07,
